@@ -758,6 +758,58 @@ Proof.
     split; auto. unfold run in *. rewrite HM', HM. now rewrite <- app_assoc.
 Qed.
 
+(* ---- a sufficient condition for no_overflow: at most 64 messages outstanding ---- *)
+Lemma dlog_step t o : exists e, dlog (step t o) = dlog t ++ e.
+Proof.
+  destruct (enabled t o) eqn:En; [|rewrite step_disabled by exact En; exists []; now rewrite app_nil_r].
+  rewrite (step_enabled _ _ En).
+  assert (H0 : exists e, dlog t = dlog t ++ e) by (exists []; now rewrite app_nil_r).
+  destruct o as [tg m| |j|j|j l'|j|j|tg l'| |tg l'|j]; cbn zeta.
+  - destruct (bad_subject (subject_of tg)); exact H0.
+  - destruct (q t) as [|[s m] r]; exact H0.
+  - destruct (disp t) as [[[s m] tg]|]; [|exact H0].
+    destruct (nth_error (subs t) j) as [y|]; [destruct (List.length (chan y) <? chan_cap)|]; exact H0.
+  - destruct (nth_error (subs t) j) as [y|]; [destruct (chan y)|]; exact H0.
+  - destruct (nth_error (subs t) j) as [y|]; [destruct (infl y) as [[m vis]|]|]; exact H0.
+  - destruct (nth_error (subs t) j) as [y|]; [|exact H0].
+    destruct (infl y) as [[m vis]|]; [|exact H0]. destruct (cur y); [|exact H0]. cbn [dlog]. eauto.
+  - exact H0.
+  - destruct (find_open (tkind tg) (subject_of tg) (subs t) 0); [exact H0|].
+    destruct (bad_subject (subject_of tg)); exact H0.
+  - destruct (emu t) as [[j l']|]; exact H0.
+  - destruct (find_open (tkind tg) (subject_of tg) (subs t) 0); exact H0.
+  - exact H0.
+Qed.
+
+Lemma pending_chan_bound t o x :
+  nth_error (subs t) i = Some x -> overflow_at t o = true -> chan_cap + 1 <= List.length (pending t).
+Proof.
+  intros Hx Hov. unfold overflow_at in Hov. rewrite Hx in Hov. destruct o; try discriminate.
+  apply andb_true_iff in Hov as [Hov Hfull]. apply andb_true_iff in Hov as [En Hji].
+  apply Nat.eqb_eq in Hji. subst i0. cbn [enabled] in En.
+  destruct (disp t) as [[[s m] tg]|] eqn:Ed; [|discriminate].
+  unfold pending, pending_of. rewrite Hx, Ed. unfold dpart_of. rewrite En. unfold pending_sub.
+  rewrite !app_length. cbn [List.length]. apply negb_true_iff, Nat.ltb_ge in Hfull. lia.
+Qed.
+
+Theorem below_threshold ops : forall t,
+  Good t -> forallb keeps ops = true ->
+  List.length (pending t) + List.length (pubs_all ops) <= chan_cap ->
+  no_overflow ops t = true.
+Proof.
+  induction ops as [|o ops IH]; intros t HG Hk Hb; cbn [no_overflow forallb pubs_all map List.concat] in *; [reflexivity|].
+  apply andb_true_iff in Hk as [Hk1 Hk2]. rewrite app_length in Hb.
+  assert (Hov : overflow_at t o = false).
+  { destruct (overflow_at t o) eqn:E; [|reflexivity]. exfalso.
+    destruct HG as [_ (x & Hx & _)]. pose proof (pending_chan_bound t o x Hx E). lia. }
+  rewrite Hov. cbn [negb andb].
+  destruct (good_law t o HG Hk1 Hov) as [HG' HM]. apply IH; auto.
+  destruct (dlog_step t o) as [e He].
+  assert (Hlen : List.length (Meas (step t o)) = List.length (Meas t) + List.length (pubs o)) by (rewrite HM, app_length; reflexivity).
+  unfold Meas, delivered in Hlen. rewrite He, delivered_of_app, !app_length in Hlen.
+  unfold pubs_all. lia.
+Qed.
+
 Corollary received_is_prefix ops t :
   Good t -> forallb keeps ops = true -> no_overflow ops t = true ->
   exists rest, delivered (run ops t) ++ rest = delivered t ++ pending t ++ pubs_all ops.
